@@ -185,7 +185,67 @@ func litOf(c *string) string {
 	return core.SQLStr(*c)
 }
 
+// c05FromParallelCalls: a user-defined function that changes a table (INSERT, UPDATE, REPLACE, DELETE) is called once per row by a
+// query whose rows are evaluated by several goroutines. Every one of those statements changes exactly what it says: afterwards
+// the table holds one inserted row per call, the counter has been raised once per call, and so on.
+func c05FromParallelCalls(w *core.Worker, i int) {
+	r := w.Rng(i, "parallel-calls")
+	n := []int{160, 240, 400, 640}[r.Intn(4)]
+	cpu := r.Range(2, 8)
+	var sb strings.Builder
+	sb.WriteString("id\n")
+	for k := 1; k <= n; k++ {
+		fmt.Fprintf(&sb, "%d\n", k)
+	}
+	files := map[string]string{"big.csv": sb.String(), "log.csv": "x\n", "cnt.csv": "id,n\n1,0\n", "del.csv": sb.String()}
+	core.WriteFiles(w.Work, files)
+	s, err := core.NewSess(core.SessOpts{Dir: w.Work, Quiet: true, CPU: cpu})
+	if err != nil {
+		w.Inconclusive(err.Error())
+		return
+	}
+	defer s.Close()
+	temp := r.Bool()
+	setup := "DECLARE ins FUNCTION (@x) AS BEGIN INSERT INTO log VALUES (@x); RETURN @x; END; DECLARE upd FUNCTION (@x) AS BEGIN UPDATE cnt SET n = n + 1; RETURN @x; END; DECLARE del FUNCTION (@x) AS BEGIN DELETE FROM del WHERE id = @x; RETURN @x; END; DECLARE rep FUNCTION (@x) AS BEGIN REPLACE INTO cnt (id, n) USING (id) VALUES (@x + 1000, @x); RETURN @x; END;"
+	if temp {
+		setup += " DECLARE log VIEW (x); DECLARE cnt VIEW (id, n) AS SELECT 1, 0; DECLARE del VIEW (id) AS SELECT id FROM big;"
+	}
+	hist := []string{setup, "SELECT COUNT(ins(id)), COUNT(upd(id)) FROM big;", "SELECT id FROM big WHERE del(id) < 0 OR rep(id) < 0;"}
+	viol := func(sig, what string) {
+		w.Violation(sig, fmt.Sprintf("[%d rows, cpu %d, temporary tables %v] %s", n, cpu, temp, what), c05Replay{Files: small(files), History: hist, CPU: cpu, Detail: what})
+	}
+	for _, q := range hist {
+		if res := s.Exec(q); res.Err != nil {
+			viol("statement-error", fmt.Sprintf("%s: %v", truncateStr(q, 80), res.Err))
+			return
+		}
+	}
+	res := s.Exec("SELECT COUNT(*), COUNT(DISTINCT x), MIN(x), MAX(x) FROM log; SELECT n FROM cnt WHERE id = 1; SELECT COUNT(*) FROM del; SELECT COUNT(*), SUM(n) FROM cnt WHERE id > 1000;")
+	if res.Err != nil || len(res.Views) != 4 {
+		viol("statement-error", fmt.Sprint(res.Err))
+		return
+	}
+	g := func(v, c int) string { return res.Views[v].Rows[0][c].S }
+	ns := strconv.Itoa(n)
+	if g(0, 0) != ns || g(0, 1) != ns || g(0, 2) != "1" || g(0, 3) != ns {
+		viol("table-differs:INSERT-from-parallel-calls", fmt.Sprintf("%d calls inserted one row each: the table holds %s rows, %s different values, from %s to %s", n, g(0, 0), g(0, 1), g(0, 2), g(0, 3)))
+	}
+	if g(1, 0) != ns {
+		viol("table-differs:UPDATE-from-parallel-calls", fmt.Sprintf("%d calls added 1 each: the counter is %s", n, g(1, 0)))
+	}
+	if g(2, 0) != "0" {
+		viol("table-differs:DELETE-from-parallel-calls", fmt.Sprintf("every row was deleted by its own call: %s rows are left", g(2, 0)))
+	}
+	if g(3, 0) != ns || g(3, 1) != strconv.Itoa(n*(n+1)/2) {
+		viol("table-differs:REPLACE-from-parallel-calls", fmt.Sprintf("%d calls added one new key each: %s rows with a sum of %s", n, g(3, 0), g(3, 1)))
+	}
+	w.Count("statements_run_from_parallel_calls", int64(4*n))
+}
+
 func c05Case(w *core.Worker, i int) {
+	if i%60 == 13 {
+		c05FromParallelCalls(w, i)
+	}
 	r := w.Rng(i, "")
 	big := i%6 == 5
 	n := pickSize(r, big)
